@@ -433,27 +433,33 @@ func (d *Datastore) storeSyncMsg(ctx context.Context, syncup *target.SyncUpdate,
 	}
 
 	for _, del := range cNotification.GetDelete() {
-		store := cachepb.Store_CONFIG
+		stores := []cachepb.Store{cachepb.Store_CONFIG}
 		if d.config.Sync != nil && d.config.Sync.Validate {
 			scRsp, err := d.schemaClient.GetSchemaSdcpbPath(ctx, del)
 			if err != nil {
 				log.Errorf("datastore %s failed to get schema for delete path %v: %v", d.config.Name, del, err)
 				continue
 			}
-			if isState(scRsp) {
-				store = cachepb.Store_STATE
+			switch {
+			case isState(scRsp):
+				stores = []cachepb.Store{cachepb.Store_STATE}
+			case scRsp.GetSchema().GetContainer() != nil:
+				// a config container may hold state nodes as well, what is stored of them goes with the container
+				stores = append(stores, cachepb.Store_STATE)
 			}
 		}
 		delPath := utils.ToStrings(del, false, false)
-		rctx, cancel := context.WithTimeout(ctx, time.Minute) // TODO:
-		defer cancel()
-		err = d.cacheClient.Modify(rctx, d.Config().Name,
-			&cache.Opts{
-				Store: store,
-			},
-			[][]string{delPath}, nil)
-		if err != nil {
-			log.Errorf("datastore %s failed to delete path %v: %v", d.config.Name, delPath, err)
+		for _, store := range stores {
+			rctx, cancel := context.WithTimeout(ctx, time.Minute) // TODO:
+			defer cancel()
+			err = d.cacheClient.Modify(rctx, d.Config().Name,
+				&cache.Opts{
+					Store: store,
+				},
+				[][]string{delPath}, nil)
+			if err != nil {
+				log.Errorf("datastore %s failed to delete path %v: %v", d.config.Name, delPath, err)
+			}
 		}
 	}
 
